@@ -370,6 +370,9 @@ func Analyze(d Def) Analysis {
 	case len(f.Services) >= 2:
 		add(Feature{Key: "empty-service", aspect: "services", svc: -1, meth: -1, msg: -1})
 	}
+	if d.DepBase != "" {
+		add(Feature{Key: "dep-go-package=" + d.DepBase, Hostile: true, aspect: "depbase", svc: -1, meth: -1, msg: -1})
+	}
 	if c := packageClass(f.Package); c != "" {
 		add(Feature{Key: "package=" + c, Hostile: true, aspect: "package", svc: -1, meth: -1, msg: -1})
 	}
@@ -626,6 +629,8 @@ func fix(d *Def, ft Feature, keepSvc int) {
 		m.RPC = false
 	case "falseopt":
 		m.False = nil
+	case "depbase":
+		d.DepBase = ""
 	case "async":
 		m.Async = false
 	case "pernode":
